@@ -10,21 +10,41 @@ for x in d['fixed']:
 fi = ['| id | what fails |', '|---|---|']
 for f in d['findings']:
     fi.append('| `%s` | %s |' % (f['id'], re.sub(r'\s+', ' ', f['summary']).replace('|', '/')))
-rows = ['| seeded change | verdict | how / what it took |', '|---|---|---|']
+rows = ['| seeded change | first | now | how / what it took |', '|---|---|---|---|']
 counts = {}
-for p in sorted(glob.glob(os.path.join(root, 'seeded', '*'))):
+r2first = {'quick': 0, 'thorough': 0, 'no': 0}
+r2now = {'quick': 0, 'thorough': 0, 'no': 0}
+def natural(p):
+    b = os.path.basename(p)
+    m = re.match(r'(C\d+)-m(\d+)', b)
+    return (m.group(1), int(m.group(2))) if m else (b, 0)
+for p in sorted(glob.glob(os.path.join(root, 'seeded', '*')), key=natural):
     m = json.load(open(os.path.join(p, 'meta.json')))
     name = os.path.basename(p)
+    short = re.sub(r'^(C\d+-m\d+).*', r'\1', name)
+    num = int(re.sub(r'^C\d+-m(\d+).*', r'\1', name))
     res = m.get('verif_result') or m.get('detected_by') or ''
     if not isinstance(res, str):
         res = json.dumps(res)
     r = re.sub(r'\s+', ' ', res)
-    verdict = 'detected'
-    if r.startswith('NOT detected'):
-        verdict = 'detected after strengthening' if 'detected by' in r or 'detected at every' in r else 'not detected'
-    counts[verdict] = counts.get(verdict, 0) + 1
-    summ = re.sub(r'\s+', ' ', m.get('summary') or '')[:150].replace('|', '/')
-    rows.append('| `%s` — %s | %s | %s |' % (name, summ, verdict, r[:260].replace('|', '/')))
+    if num <= 3:
+        first = 'detected'
+        now = 'detected'
+        if r.startswith('NOT detected'):
+            first = 'not detected'
+            now = 'detected' if ('detected by' in r or 'detected at every' in r) else 'not detected'
+        verdict = 'detected' if first == 'detected' else ('detected after strengthening' if now == 'detected' else 'not detected')
+        counts[verdict] = counts.get(verdict, 0) + 1
+    else:
+        fr = m.get('first_result', '')
+        first = 'quick' if 'quick tier' in fr and fr.startswith('detected') else ('thorough' if fr.startswith('detected') else 'not detected')
+        r2first['quick' if first == 'quick' else ('thorough' if first == 'thorough' else 'no')] += 1
+        fin = m.get('final_result', '')
+        now = 'quick' if fin.startswith('detected (quick') else ('thorough' if fin.startswith('detected (thorough') else ('not detected' if fin else '?'))
+        r2now['quick' if now == 'quick' else ('thorough' if now == 'thorough' else 'no')] += 1
+        r = (fin + ('. ' + r if r else '')).strip()
+    summ = re.sub(r'\s+', ' ', m.get('summary') or '')[:140].replace('|', '/')
+    rows.append('| `%s` — %s | %s | %s | %s |' % (short, summ, first, now, r[:240].replace('|', '/')))
 s = open(os.path.join(root, 'DESIGN.md')).read()
 def put(s, tag, lines):
     a, b = '<!-- %s:begin -->' % tag, '<!-- %s:end -->' % tag
@@ -36,4 +56,9 @@ s = put(s, 'seeded', rows)
 s = re.sub(r'\*\*\d+ defects are repaired\*\*', '**%d defects are repaired**' % len(d['fixed']), s)
 s = re.sub(r'\*\*\d+ are\s+listed\*\*', '**%d are\nlisted**' % len(d['findings']), s)
 open(os.path.join(root, 'DESIGN.md'), 'w').write(s)
-print(len(d['fixed']), 'fixed;', len(d['findings']), 'listed;', counts)
+n2 = sum(r2first.values())
+s2 = open(os.path.join(root, 'DESIGN.md')).read()
+s2 = re.sub(r'<!-- round2first -->[^.]*?(?=\. That number)', '<!-- round2first -->%d of %d at the quick tier (seed 1), %d more at the thorough tier only, %d not at all' % (r2first['quick'], n2, r2first['thorough'], r2first['no']), s2)
+s2 = re.sub(r'<!-- round2now -->[^\n]*', '<!-- round2now -->On the final tree: %d of %d at the quick tier, %d more at the thorough tier, %d not detected (each of those is discussed in §11.6).' % (r2now['quick'], n2, r2now['thorough'], r2now['no']), s2)
+open(os.path.join(root, 'DESIGN.md'), 'w').write(s2)
+print(len(d['fixed']), 'fixed;', len(d['findings']), 'listed;', counts, 'round2 first', r2first, 'now', r2now)
